@@ -371,3 +371,77 @@ Print Assumptions c08_scopes_walk_before_fix_guard_outside_arm_refuted.
 Print Assumptions c08_scopes_let_bound_inside_its_initialiser_refuted. Print Assumptions c08_scopes_shadowing_let_example.
 Print Assumptions c08_scopes_expression_binder_captures_refuted.
 Print Assumptions c08_scopes_hygiene_two_invocations.
+
+(* ------------------------------------------------------------------ what an invocation expands to depends on the ORIGINS of its
+   argument identifiers (Macros/MacroMemo.v; generators of the class: gen/c08_memo.py).
+   `step!(x, y)` written by a rule and `step!($x, y)` written in `macro two($x, $z) { step!($x, y), step!(y, $z) }` and instantiated
+   by `two!(x, w)` are spelled alike and are different invocations: in the second one y is a local of two!, and the renaming pass
+   of two! recognises it by its origin alone. *)
+From AV Require Import Macros.MacroMemo.
+
+(* two invocations equal up to spelling, different in the origin of one argument identifier: the faithful expansions differ, and
+   the renaming of the enclosing macro 1 renames the one and leaves the other *)
+Theorem c08_expansion_of_an_invocation_depends_on_the_origin_of_its_arguments :
+  let a := [TV (cs "x"); TV (cs "y")] in
+  let a' := [TV (cs "x"); TV (ml 1 "y")] in
+  spelled_alike a a'
+  /\ expand_item DEPTH M_memo (IInv 0 a) [] = OK ([IClause 0 a []], [])
+  /\ expand_item DEPTH M_memo (IInv 0 a') [] = OK ([IClause 0 a' []], [])
+  /\ expand_item DEPTH M_memo (IInv 0 a) [] <> expand_item DEPTH M_memo (IInv 0 a') []
+  /\ fst (rename_originated 1 [IClause 0 a []] []) = [IClause 0 a []]
+  /\ fst (rename_originated 1 [IClause 0 a' []] []) = [IClause 0 [TV (cs "x"); TV (VId (mkId "__y_"%string (OMac 1) 0))] []].
+Proof. exact expansion_depends_on_origin. Qed.
+Theorem c08_renaming_tells_one_spelling_apart_by_origin : forall m mp (i j : MacroModel.ident) s,
+  MacroModel.iname i = MacroModel.iname j -> MacroModel.org_is m i = true -> MacroModel.org_is m j = false ->
+  MacroModel.sassoc mp (MacroModel.iname i) = Some s -> s <> MacroModel.iname i ->
+  MacroMemo.forget i = MacroMemo.forget j /\ MacroModel.ren m mp i <> MacroModel.ren m mp j.
+Proof. exact ren_reads_the_origin. Qed.
+
+(* REFUTED variant (not the code: seed C08 round 6): the expansion that remembers the instantiated body of an invocation per
+   program under the key (macro, argument SPELLING) — MacroMemo.expand_prog_memo, which differs from MacroModel.expand_prog only in
+   that table — is not hygienic on a program inside the hypotheses of c08_hygiene: the first invocation inside two! comes back
+   with the call-site y, two! does not rename it, and it is captured.  Identically spelled invocations in one rule ... *)
+Theorem c08_memo_by_argument_spelling_same_rule_refuted :
+  wf_macros (fun m => m) [] M_memo = true /\ wf_rule [] r_memo = true
+  /\ exists r' h, expand_prog_memo M_memo [r_memo] = OK [r'] /\ hexpand_rule M_memo r_memo = OK h /\ ~ exists phi, hygienic_image r' h phi.
+Proof. exact refuted_memo_by_spelling_same_rule. Qed.
+(* ... and in two rules, the call-site one first: a rule is expanded wrongly because of a rule that stands before it (alone it
+   expands as in the faithful model; in the other order both do, up to the origin tags of the result) *)
+Theorem c08_memo_by_argument_spelling_across_rules_refuted :
+  wf_macros (fun m => m) [] M_memo = true /\ wf_rule [] r_memo_a = true /\ wf_rule [] r_memo_b = true
+  /\ (exists ra r' h, expand_prog_memo M_memo [r_memo_a; r_memo_b] = OK [ra; r'] /\ hexpand_rule M_memo r_memo_b = OK h
+                      /\ ~ exists phi, hygienic_image r' h phi)
+  /\ spelling_of (expand_prog_memo M_memo [r_memo_b; r_memo_a]) = spelling_of (expand_prog M_memo [r_memo_b; r_memo_a])
+  /\ expand_prog_memo M_memo [r_memo_b] = expand_prog M_memo [r_memo_b].
+Proof. exact refuted_memo_by_spelling_across_rules. Qed.
+Example c08_memo_by_argument_spelling_example :
+  expand_prog_memo M_memo [r_memo] =
+      OK [mkRule [HClause 3 [TV (cs "x"); TV (cs "w")]; HClause 4 [TV (cs "x"); TV (cs "y")]]
+                 [IClause 0 [TV (cs "x"); TV (cs "y")] [];
+                  IClause 0 [TV (cs "x"); TV (cs "y")] []; IClause 0 [TV (VId (mkId "__y_"%string (OMac 1) 0)); TV (cs "w")] []]].
+Proof. exact memo_program_by_spelling. Qed.
+
+(* remembering is sound under a key that KEEPS the origins: keyed by the argument tokens, the table answers an invocation exactly
+   as MacroModel.instantiate does and stays exact (one step of the expansion; that the whole expansion with the exact table equals
+   expand_prog is computed on the program above, not proved in general) *)
+Theorem c08_memo_by_argument_tokens_answers_as_instantiate : forall M m acts tb,
+  memo_exact M tb ->
+  match instantiate_memo (fun i => i) M m acts tb with
+  | OK (b, tb') => instantiate M m acts (fun b => b) = OK b /\ memo_exact M tb'
+  | Err e => instantiate M m acts (fun b => b) = Err e
+  end.
+Proof. exact instantiate_memo_exact. Qed.
+Theorem c08_memo_by_argument_spelling_answers_otherwise :
+  exists tb b b', instantiate_memo MacroMemo.forget M_memo 0 [TV (cs "x"); TV (cs "y")] [] = OK (b, tb)
+    /\ instantiate_memo MacroMemo.forget M_memo 0 [TV (cs "x"); TV (ml 1 "y")] tb = OK (b, tb)
+    /\ instantiate M_memo 0 [TV (cs "x"); TV (ml 1 "y")] (fun b => b) = OK b' /\ b <> b'.
+Proof. exact instantiate_memo_by_spelling_differs. Qed.
+Example c08_memo_by_argument_tokens_example :
+  expand_prog_memo_exact M_memo [r_memo] = expand_prog M_memo [r_memo]
+  /\ expand_prog_memo_exact M_memo [r_memo_a; r_memo_b] = expand_prog M_memo [r_memo_a; r_memo_b].
+Proof. exact memo_exact_example. Qed.
+
+Print Assumptions c08_expansion_of_an_invocation_depends_on_the_origin_of_its_arguments. Print Assumptions c08_renaming_tells_one_spelling_apart_by_origin.
+Print Assumptions c08_memo_by_argument_spelling_same_rule_refuted. Print Assumptions c08_memo_by_argument_spelling_across_rules_refuted.
+Print Assumptions c08_memo_by_argument_spelling_example. Print Assumptions c08_memo_by_argument_tokens_answers_as_instantiate.
+Print Assumptions c08_memo_by_argument_spelling_answers_otherwise. Print Assumptions c08_memo_by_argument_tokens_example.
